@@ -329,6 +329,27 @@ def check_comparison(prog, chk, body, field, variant, bb, idx, stmt, limit_tmp):
                 f"loop-limit predicate is not exact: the enumerate() index{' + ' + str(ei) if ei else ''} (passes completed before this one{', plus ' + str(ei) if ei else ''}) is compared `{op}` {field} - a loop of {field} + {1 if (ei == 0 and op == 'Gt') else '?'} passes is accepted",
             )
             return
+        if ch[0] == "call" and "fn" in ch[2] and Callee(ch[2]["fn"]).path.split("::")[-1] == "len" and ("Vec" in Callee(ch[2]["fn"]).path or "slice" in Callee(ch[2]["fn"]).path or "[T]" in Callee(ch[2]["fn"]).path):
+            # the number of passes is known up front (the length of the list to go through)
+            chk.ob(op == "Gt", "A7.pred", key + ":counter", where, f"the number of passes (a list length) is refused when it is `> {field}`: exactly {field} passes are accepted", f"loop-limit predicate is not exact: the number of passes (a list length) is compared `{op}` {field} - a loop of exactly {field} passes is {'refused' if op == 'Ge' else 'not the boundary'}")
+            return
+        from sa import discharge as D_
+        nrm_ = D_._norm(body, ch[1]) if ch[0] == "place" and ch[1][1] else None
+        for _ in range(4):
+            # through reborrows (`&mut *context` handed to a spliced helper)
+            if nrm_ is not None and nrm_[1] and nrm_[1][0] == "*" and not (1 <= nrm_[0] <= body.argc):
+                n2_ = D_._norm(body, nrm_)
+                if n2_ == nrm_:
+                    break
+                nrm_ = n2_
+        if nrm_ is not None and nrm_[1] and nrm_[1][0] == "*" and 1 <= nrm_[0] <= body.argc:
+            # a counter kept in an object the caller hands in (the context): it is this loop's own count only if it
+            # is set to 0 when the loop starts
+            cpl_ = nrm_
+            resets = [1 for _b, _i, s_ in body.all_stmts() if "lhs" in s_ and D_._norm(body, P(s_["lhs"])) == cpl_ and s_["rv"].get("k") == "use" and const_int(s_["rv"]["op"]) == 0]
+            if not resets:
+                chk.bad("A7.pred", key + ":counter", where, f"the count compared with {field} lives in `{D_pname(body, cpl_)}`, an object handed in by the caller, and is never reset to 0 here: it counts the passes of every loop of the document together, so a loop is refused although it stays within the limit itself (and a loop after a long one is refused at once)")
+                return
         if ch[0] != "place" or ch[1][1]:
             chk.undecided("A7.pred", key + ":counter", where, "the quantity compared with loop_limit is not a plain local counter (an iterator index, a field): what it counts is not decided")
             return
@@ -434,6 +455,11 @@ def _through_views(body, op):
             continue
         break
     return op
+
+
+def D_pname(body, pl):
+    n = body.local_name(pl[0]) or f"_{pl[0]}"
+    return n + "".join(str(x) for x in pl[1])
 
 
 def _enumerate_index(body, op, depth=10):
